@@ -55,6 +55,14 @@ def run(payload):
                     b = gen.evolution_rate(s, 0.3).data
                     if not np.allclose(a, b, rtol=1e-4, atol=1e-5):
                         fail("class_vs_expression", eq=name, grid=repr(grid), expression=eq_h.expression, max_dev=float(np.max(np.abs(a - b))))
+                    # the same with ONE inhomogeneous condition for all operators (nothing operator specific, so the text can express it)
+                    for inh in (bc("value", 0.8), bc("derivative", -0.6)):
+                        kw = {k: inh for k in ("bc", "bc_c", "bc_mu", "bc_lap") if hasattr(eq, k)}
+                        eq_i = type(eq)(**params, **kw)
+                        a = eq_i.evolution_rate(s, 0.3).data
+                        b = PDE({"c": eq_i.expression}, bc=inh).evolution_rate(s, 0.3).data
+                        if not np.allclose(a, b, rtol=1e-4, atol=1e-5):
+                            fail("class_vs_expression_with_one_inhomogeneous_condition", eq=name, grid=repr(grid), expression=eq_i.expression, bc=repr(inh), max_dev=float(np.max(np.abs(a - b))))
                 except Exception as e:
                     fail("rate_error", eq=name, grid=repr(grid), error=f"{type(e).__name__}: {str(e)[:300]}")
             for eq in (WavePDE(r(), bc=b1), KleinGordonPDE(r(), r(), bc=b2)):
